@@ -37,7 +37,14 @@ def _impl(tier, seed, search):
     for i in range(n):
         for d, mkR, mkT in ((3, lambda: inputs.so3(g), lambda: inputs.se3(g)), (2, lambda: inputs.so2(g), lambda: inputs.se2(g))):
             SOc, SEc = (SO3, SE3) if d == 3 else (SO2, SE2)
-            R = mkR(); T = mkT(); Rt, tt = T[:d, :d], T[:d, d]
+            R = mkR(); T = mkT()
+            # special poses: translations with exactly zero components, pure translations, pure rotations
+            r_ = g.random()
+            if r_ < 0.15: T[int(g.integers(0, d)), d] = 0.0
+            elif r_ < 0.22: T[:d, d] = 0.0; T[int(g.integers(0, d)), d] = float(g.normal())
+            elif r_ < 0.27: T[:d, :d] = np.eye(d)
+            elif r_ < 0.32: T[:d, d] = 0.0
+            Rt, tt = T[:d, :d], T[:d, d]
             p = pts(d, 1)[:, 0]
             scale = max(float(np.max(np.abs(p))), float(np.max(np.abs(tt))), 1e-300)
             forms = dict(list=list(p), tuple=tuple(p), array=p.copy(), row=p.reshape(1, d), col=p.reshape(d, 1))
